@@ -253,7 +253,7 @@ pub fn run_main(args: &[String]) -> i32 {
                 .arg(per_profile.to_string())
                 .arg(&out)
                 .stdout(Stdio::null())
-                .stderr(Stdio::inherit())
+                .stderr(std::fs::File::create(out.with_extension("stderr")).map(Stdio::from).unwrap_or_else(|_| Stdio::null()))
                 .spawn();
             match child {
                 Ok(c) => children.push((pname.clone(), shard, out, c)),
@@ -297,7 +297,9 @@ pub fn run_main(args: &[String]) -> i32 {
                     let _ = std::fs::copy(&hang, &dst);
                     inconclusive.push(format!("worker {pname}/{shard}: a case exceeded the wall-clock watchdog (case saved to {})", dst.display()));
                 } else {
-                    inconclusive.push(format!("worker {pname}/{shard} died with status {st}"));
+                    let tail = std::fs::read_to_string(out.with_extension("stderr")).unwrap_or_default();
+                    let tail: Vec<&str> = tail.lines().filter(|l| !l.starts_with("proptest:")).rev().take(6).collect();
+                    inconclusive.push(format!("worker {pname}/{shard} died with status {st}: {:?}", tail));
                 }
             }
         }
